@@ -4,6 +4,7 @@
 import CM.Driver.Codec
 import CM.Driver.RelOps
 import CM.Driver.BagOps
+import CM.Driver.FactoryOps
 import CM.Model.Shard
 import CM.Model.Impure
 import CM.Model.Loopback
@@ -196,6 +197,7 @@ def dispatch (j : Json) : P Json := do
   | "loopback" => opLoopback j
   | "shard" => opShard j
   | "bag" => opBag j
+  | "factory" => opFactory j
   | "ping" => pure (Json.mkObj [("pong", .bool true)])
   | _ => throw s!"unknown op {op}"
 
